@@ -126,6 +126,15 @@ def g(x, y=1, *, z=2):
 def h(p, q):
     return ('h', p, q)
 
+def g2(x, y=1, /, *, z=2):
+    return ('g2', x, y, z)
+
+def g3(x, /, y, *more, k, z=2, **extra):
+    return ('g3', x, y, more, k, z, extra)
+
+def g4(*, only_kw=0):
+    return ('g4', only_kw)
+
 def ident(*a, **k):
     return a[-1] if a else None
 
@@ -186,6 +195,33 @@ STATEMENTS = [
     'r0 = g(*{va}, **{vk}); r1 = h(*{va}, **{vk})',
     'r0 = \\\n    g(*{va},\n      **{vk})',
     'r0 = undefined_name0(*{va}, **{vk})',
+    # forwarding only one of the stars, explicit arguments, other callees
+    'return g2(1, **{vk})',
+    'return g2(*{va})',
+    'return g2(*{va}, **{vk})',
+    'return g3(1, **{vk})',
+    'return g3(*{va}, k=1, **{vk})',
+    'return g3(1, 2, 3, *{va}, **{vk})',
+    'return g4(**{vk})',
+    'return g4(*{va}, **{vk})',
+    'return g(1, **{vk})',
+    'return g(y=5, *{va}, **{vk})',
+    'return h(*{va})',
+    'return h(1, *{va}, **{vk})',
+    'return K0(1, **{vk})',
+    'return str.strip(**{vk})',
+    'return "sep".join(*{va}, **{vk})',
+    'return functools.partial(*{va}, **{vk})',
+    'return functools.partial(g2, **{vk})',
+    # nested definitions with every kind of parameter
+    'def nested1(p, *, kwreq):\n    return g(*{va}, **{vk})\nreturn nested1(1, kwreq=2)',
+    'r0 = lambda p, *, kwreq: g(*{va}, **{vk})',
+    'def nested2(p=g(*{va}, **{vk}), /, q=1, *r, s, t=2, **u):\n    return p\nreturn nested2(s=1)',
+    'async def nested3(*a4, k4=None, **k5):\n    return g(*a4, **k5)\nreturn nested3(*{va}, **{vk})',
+    '@functools.wraps(g)\ndef nested4(*a4, **k4):\n    return g(*a4, **k4)\nreturn nested4(*{va}, **{vk})',
+    'class Local2(object):\n    def meth(self, *a4, k4, **k5):\n        return g(*{va}, **{vk})\nreturn Local2().meth(k4=1)',
+    'r0 = [lambda *, k4: g(*{va}, **{vk}) for _ in range(1)]',
+    'def gen0(*, k4):\n    yield g(*{va}, **{vk})\nreturn list(gen0(k4=1))',
 ]
 
 HEADERS = [
@@ -264,6 +300,35 @@ WHOLE = [
     ('tabs', 'def f(a, *args, **kwargs):\n\treturn g(*args, **kwargs)\n', ['f']),
     ('docstring_dedent', 'class C(object):\n    def m(self, a, *args, **kwargs):\n        """doc\n\n    dedented line\n        """\n        return g(*args, **kwargs)\nc = C()\n', ['c.m', 'C.m']),
     ('unicode_names', 'def f(\u00e9, *\u00e0rgs, **kw\u00e0rgs):\n    return g(*\u00e0rgs, **kw\u00e0rgs)\n', ['f']),
+    ('partial_of_star_args', 'def f(*args, **kwargs):\n    return functools.partial(*args, **kwargs)\n', ['f']),
+    ('method_without_self', 'class A0(object):\n    def m(**kwargs):\n        return g(**kwargs)\n'
+                            '    def m2(*args):\n        return g(*args)\na0 = A0()\n', ['a0.m', 'A0.m', 'a0.m2', 'A0.m2']),
+    ('unhashable_callable', 'class U0(object):\n    def __eq__(self, other):\n        return type(self) is type(other)\n'
+                            '    def __call__(self, a, *args, **kwargs):\n        return g(*args, **kwargs)\n'
+                            'u0 = U0()\ndef f(b, *args, **kwargs):\n    return u0(*args, **kwargs)\n', ['u0', 'f']),
+    ('unhashable_forwarder', 'import dataclasses\n@dataclasses.dataclass\nclass Cfg:\n    n: int = 0\n'
+                             '    def __call__(self, a, *args, **kwargs):\n        return g(*args, **kwargs)\n'
+                             'cfg = Cfg()\npcfg = functools.partial(cfg, 1)\n', ['cfg', 'pcfg', 'Cfg']),
+    ('pep563_module', '#FUTURE#\nimport typing\n'
+                      'def noparams() -> typing.List[int]:\n    return []\n'
+                      'def fwd(*args, **kwargs) -> int:\n    return g(*args, **kwargs)\n'
+                      'def some(a: int, b: "str" = "s", *args: typing.Any, **kwargs) -> None:\n    return g(*args, **kwargs)\n'
+                      'def unevaluable(a: NotDefinedAnywhere) -> AlsoNot:\n    return a\n'
+                      'class Conn(object):\n'
+                      '    def close(self) -> None:\n        pass\n'
+                      '    def send(self, data: bytes, *, flags: int = 0) -> int:\n        return 0\n'
+                      '    @classmethod\n    def default(cls) -> Conn:\n        return cls()\n'
+                      '    @staticmethod\n    def version() -> typing.Tuple[int, int]:\n        return (1, 0)\n'
+                      '    def fwd(self, *args, **kwargs) -> typing.Optional[int]:\n        return g(*args, **kwargs)\n'
+                      'conn = Conn()\n',
+     ['noparams', 'fwd', 'some', 'unevaluable', 'Conn.close', 'Conn.send', 'Conn.default', 'Conn.version', 'Conn.fwd',
+      'conn.close', 'conn.fwd', 'Conn']),
+    ('annotated_eager', 'import typing\n'
+                        'def noparams() -> typing.List[int]:\n    return []\n'
+                        'def fwd(*args, **kwargs) -> "int":\n    return g(*args, **kwargs)\n'
+                        'class Conn(object):\n    def close(self) -> None:\n        pass\n'
+                        '    def fwd(self, *args, **kwargs) -> typing.Optional[int]:\n        return g(*args, **kwargs)\n',
+     ['noparams', 'fwd', 'Conn.close', 'Conn.fwd']),
     ('generic_class', 'class B[T]:\n    def m(self, a: T, *args, **kwargs) -> T:\n        return g(*args, **kwargs)\nb = B()\n', ['b.m', 'B.m', 'B']),
 ]
 
@@ -327,6 +392,10 @@ def gen_construct(ch):
     mode = ch.weighted([5, 3, 3], 'construct-mode')
     if mode == 1:
         name, text, subjects = WHOLE[ch.draw(len(WHOLE), 'whole')]
+        if '#FUTURE#' in text:
+            return dict(template='construct:' + name, params=dict(whole=name),
+                        source='from __future__ import annotations\n' + PRELUDE + '\n' + text.replace('#FUTURE#', ''),
+                        subjects=dict((s, s) for s in subjects), tags={'construct'})
         return dict(template='construct:' + name, params=dict(whole=name), source=PRELUDE + '\n' + text,
                     subjects=dict((s, s) for s in subjects), tags={'construct'})
     if mode == 2:
@@ -356,15 +425,19 @@ def gen_construct(ch):
     extra = ('class K0(object):\n    def __init__(self, p=0, *a, **k):\n        pass\n\n'
              'class Obj0(object):\n    pass\nobj0 = Obj0()\n'
              '@contextlib.contextmanager\ndef contextmanager0():\n    yield 1\n')
-    src = PRELUDE + 'import contextlib\n' + extra + '\n'
+    future = ch.draw(4, 'postponed-annotations') == 1
+    src = ('from __future__ import annotations\n' if future else '') + PRELUDE + 'import contextlib\n' + extra + '\n'
     header = HEADERS[hi].format(params=params if not method else 'self, ' + params)
+    if future and '->' not in header:
+        header = header.replace('):', ') -> typing0.Optional[int]:', 1) if header.rstrip().endswith('):') else header
+        src += 'import typing as typing0\n'
     if method:
         src += 'class Owner(object):\n' + indent(header + '\n' + indent(body, 4), 4) + '\nowner = Owner()\n'
         subjects = {'owner.f': 'owner.f', 'Owner.f': 'Owner.f'}
     else:
         src += header + '\n' + indent(body, 4)
         subjects = {'f': 'f'}
-    return dict(template='construct:generated', params=dict(header=hi, params=params, statements=sts, method=method),
+    return dict(template='construct:generated', params=dict(header=hi, params=params, statements=sts, method=method, future=future),
                 source=src, subjects=subjects, tags={'construct'})
 
 
@@ -575,6 +648,31 @@ def check_sphinx(res, dotted, viol, fault):
              '{0}: got {1!r} expected {2!r}'.format(dotted, out, exp))
         return
     res.counters['sphinx:formatted'] += 1
+    # independent reference (not sigtools' own evaluated()): where retrieval did not refine the
+    # signature, CPython's own evaluation of the annotations must give the same strings
+    import __future__
+    f0 = o.__func__ if isinstance(o, types.MethodType) else o
+    if not isinstance(f0, types.FunctionType):
+        return      # classes: dropping their annotations is what the pinned suite expects (test_attrs_class)
+    postponed = bool(f0.__code__.co_flags & __future__.annotations.compiler_flag)
+    try:
+        plain = inspect.signature(o)
+        if str(specifiers.signature(o)) != str(plain):
+            return
+        # explicit string annotations in a module without PEP 563 stay strings for sigtools
+        ev = inspect.signature(o, eval_str=postponed)
+    except Exception:
+        return
+    r2 = ev.return_annotation
+    if r2 is not ev.empty:
+        exp2 = (str(ev.replace(return_annotation=ev.empty)), '{0!r}'.format(r2))
+    else:
+        exp2 = (str(ev), '')
+    res.counters['sphinx:checked_against_inspect_eval_str'] += 1
+    if _noaddr(out) != _noaddr(exp2):
+        viol('T4', 'sphinx hook strings differ from inspect.signature(eval_str=True)',
+             '{0}: got {1!r} expected {2!r}'.format(dotted, out, exp2))
+        return
 
 
 def _noaddr(pair):
